@@ -363,7 +363,7 @@ func c15ApplyFault(t *testing.T, a *chain.App, ctx sdk.Context, e *c15Env, fault
 	return
 }
 
-var c15Faults = []string{"none", "inactive-prices", "zero-prices", "huge-prices", "drained-modules", "deleted-params", "counter-high", "counter-high-1",
+var c15Faults = []string{"none", "inactive-prices", "zero-prices", "huge-prices", "drained-modules", "counter-high", "counter-high-1",
 	"counter-low", "batch-zero-liquidity"}
 
 func TestC15(t *testing.T) {
